@@ -170,6 +170,28 @@ def acts_sym(alist):
   return {(): "none", (3,): "o3", (4,): "o4", (3, 4): "o34"}.get(tuple(ports), "?%r" % ports)
 
 
+def junk_kinds(m, sp):
+  """Which kinds of ignored bits are non-zero in the spelling `sp` of the match `m`."""
+  if m["ex"]:
+    return []
+  kinds = [n for n, bit, ln in (("nw_dst", SP_DST, m["nl"]), ("nw_src", SP_SRC, m["sl"]))
+           if sp & bit and 0 < ln < 32]
+  if len(kinds) == 2:
+    kinds = ["nw_src+nw_dst"]         # both prefixes of one match
+  if sp & SP_WILD:
+    kinds.append("wildcarded_fields")
+  return kinds
+
+
+def match_class(m):
+  """Which fields a spec match names (for failure signatures)."""
+  if m["ex"]:
+    return "exact"
+  f = (["in_port"] if m["ip"] else []) + (["dl_dst"] if m["dd"] else []) + \
+      (["nw_src/%d" % m["sl"]] if m["sl"] else []) + (["nw_dst/%d" % m["nl"]] if m["nl"] else [])
+  return "+".join(f) or "any"
+
+
 class PoxRaised(Exception):
   pass
 
@@ -214,12 +236,7 @@ class Adapter(object):
       return match_bytes(m)
     self.nmatch += 1
     junk = (self.nmatch * 40503 + 0x5a5a5a) & 0xffffffff
-    kinds = [n for n, bit, ln in (("nw_dst", SP_DST, m["nl"]), ("nw_src", SP_SRC, m["sl"]))
-             if sp & bit and 0 < ln < 32]
-    if len(kinds) == 2:
-      kinds = ["nw_src+nw_dst"]         # both prefixes of one match
-    if sp & SP_WILD:
-      kinds.append("wildcarded_fields")
+    kinds = junk_kinds(m, sp)
     if kinds:
       self.sent_junk = True
       self.junk_kinds.update(kinds)
@@ -409,6 +426,10 @@ class Adapter(object):
     exp = st["exp"]
     if st["a"] == "FlowMod":
       sig["cmd"] = st["args"]["cmd"]
+    if st["a"] in ("FlowMod", "Stats"):
+      sp = st["args"]["sp"] | (SP_DST | SP_SRC if self.hostbits else 0)
+      sig["match"] = match_class(st["args"]["m"])
+      sig["spelling"] = junk_kinds(st["args"]["m"], sp) or ["canonical"]
     if not isinstance(obs, dict) or "EXC" in obs:
       sig["observed"] = "exception:" + (obs.get("EXC", "?") if isinstance(obs, dict) else "?")
       return sig
